@@ -62,6 +62,16 @@ def offgrid_vector(rng, freqs, mag=1.0, knots=(3, 8), rough=0.0,
     pf = np.linspace(max(lo - margin * span, 0.05 * lo), hi + margin * span, k)
     pf = pf + rng.uniform(-0.02, 0.02, k) * span / k
     pf = np.maximum(pf, 1.0)
+    if len(freqs) >= 3 and rng.random() < 0.25:
+        # the kit was characterised over the same span with the same number
+        # of points, on a differently spaced sweep: first and last frequency
+        # and the point count coincide with the calibration's, the interior
+        # points do not
+        F = len(freqs)
+        w = np.cumsum(rng.uniform(0.3, 1.0, F - 1))
+        pf = lo + (hi - lo) * np.concatenate([[0.0], w / w[-1]])
+        pf[-1] = hi
+        k = F
     a = (rng.standard_normal() + 1j * rng.standard_normal()) * 0.6 * mag
     b = (rng.standard_normal() + 1j * rng.standard_normal()) * 0.3 * mag
     c = rng.uniform(-0.3, 0.3) + 0.2j * rng.uniform(-1, 1)
